@@ -180,15 +180,15 @@ PROPS['C04'] = dict(layers=[D(P.p_c04, P.p_c04_quit, P.p_c04_deadline, P.p_c04_x
                           # long-lived sessions: thousands of request lines on one connection (the input ring wraps many times)
                           D(P.p_c04, P.p_c04_quit, P.p_c15, profile=dict(faults=0.1, quit=0.003, maxclients=3, calm=0.05), quick=(8, 2500), thorough=(128, 6000))], planned=['C04_one_reply', 'C04_no_wedge', 'C04_tenure', 'C04_bound_partial'])
 PROPS['C06'] = dict(layers=[D(P.p_c04, P.p_c15, P.p_c06_served, P.p_f23, profile=dict(fatal=0.03, faults=1.5, maxclients=6), deaths=client_deaths), D(P.p_c04, P.p_c15, P.p_c06_toolong, profile=dict(fatal=0.02, faults=0.1, quit=0.003, maxclients=3, calm=0.05, longline=0.003), deaths=client_deaths, quick=(8, 2500), thorough=(128, 6000))], planned=['C06_total over lines >= CP_LINEMAX (203)', 'C06_reap'])
-PROPS['C07'] = dict(layers=[D(P.p_c20, profile=dict(garbage=0.08, pF6=0.03, calm=0.25, flood=0.004), deaths=device_deaths)], planned=['C07_no_abort assembled over whole runs'])
+PROPS['C07'] = dict(layers=[D(P.p_c20, profile=dict(garbage=0.08, pF6=0.03, calm=0.25, flood=0.004, storm=0.004), deaths=device_deaths)], planned=['C07_no_abort assembled over whole runs'])
 WIRE = r'^(Y write [23]\d\d\d |O dev \d+ to )'
 # the regex oracle: the model replays the real regexec answers and must ask the same question; "RXMISMATCH" = the real interpreter
 # evaluated another expect / pattern than the script's program has at this point of this input
 RXQ = (r'^O RXMISMATCH', 'the real interpreter evaluates another pattern than the script prescribes at this point of this input (the model, proved equal to the reference program by C08_refines, asks a different question of the regex oracle)')
-PROPS['C08'] = dict(layers=[D(P.p_c08, P.p_c01, profile=dict(faults=0.5))],
+PROPS['C08'] = dict(layers=[D(P.p_c08, P.p_c01, profile=dict(faults=0.5, storm=0.003))],
                     refines=[(WIRE, 'the bytes sent to a device are not what the script prescribes for this input (reference semantics: C08_refines, C08_sends_are_script)'), RXQ], planned=['composition of the refinement over postPoll sequences with reconnects'])
-PROPS['C09'] = dict(layers=[D(P.p_c09_write, P.p_c09_read, P.p_c04_quit, profile=dict(garbage=0.05, flood=0.004, longline=0.001)), cbuflayer.CbufLayer(), seriallayer.SerialLayer()], planned=['the daemon model (Dev2/Daemon) still carries its buffers as byte lists with the size rule; it is tied to the ring model (Pm/CbufRing) through the shared size rule growTo and the refinement theorems C09_ring_*, not by substitution'])
-PROPS['C10'] = dict(layers=[D(P.p_c10)], planned=['C10_head_only', 'C10_transcript', 'C10_fifo'])
+PROPS['C09'] = dict(layers=[D(P.p_c09_write, P.p_c09_read, P.p_c04_quit, profile=dict(garbage=0.05, flood=0.004, longline=0.001, storm=0.004)), cbuflayer.CbufLayer(), seriallayer.SerialLayer()], planned=['the daemon model (Dev2/Daemon) still carries its buffers as byte lists with the size rule; it is tied to the ring model (Pm/CbufRing) through the shared size rule growTo and the refinement theorems C09_ring_*, not by substitution'])
+PROPS['C10'] = dict(layers=[D(P.p_c10, profile=dict(storm=0.003))], planned=['C10_head_only', 'C10_transcript', 'C10_fifo'])
 PROPS['C12'] = dict(refines=[(r'^O RXMISMATCH', 'after the failure the pending action is not executed again as its script prescribes from the first statement on: the real interpreter evaluates another pattern than the reference program at this point of this input (C12_restart, C12_rewind_initial, C08_refines)'), (r'^(Y write [23]\d\d\d |O dev \d+ to )', 'what is sent to the device after a failure is not what the pending scripts prescribe when executed again from their first statement (C12_restart, C12_rewind_initial: the rewound action abstracts to its whole script)')], layers=[D(P.p_c12, P.p_c12_disconnect, P.p_c04, P.p_c02_c03, profile=dict(pF6=0.02, calm=0.3))], planned=['C12_ioerr', 'C12_recover_partial'])
 PROPS['C13'] = dict(layers=[config.ConfigLayer()], planned=['C13_listings at daemon level (nodes / device replies) — the replies themselves are mirrored in Pm.Daemon and compared on every run'])
 PROPS['C14'] = dict(layers=[hostlist.HostlistLayer()], planned=['C14_roundtrip', 'C14_sort_perm', 'C14_three_hops'])
